@@ -171,6 +171,16 @@ func (s *Store) Update(bi BundleItem) error {
 	s.mutex.Lock()
 	defer s.mutex.Unlock()
 
+	// The caller's BundleItem was queried some time ago. Only its meta data is taken over. Its parts are those of
+	// the current record; a fragment or the whole bundle which was pushed in the meantime must not get lost.
+	var biStore BundleItem
+	if err := s.bh.Get(bi.Id, &biStore); err != nil {
+		return err
+	}
+
+	bi.Fragmented = biStore.Fragmented
+	bi.Parts = biStore.Parts
+
 	return s.bh.Update(bi.Id, bi)
 }
 
